@@ -2,7 +2,7 @@
    MapProofs and WorldProofs; the Prop_Cxx.v files restate them and close them by [exact]. *)
 From stdpp Require Import gmap list.
 From Coq Require Import NArith Lia.
-From G Require Import Arith Monad Types Inv Raw RawProofs Map MapProofs IterProofs CloneProofs Cost EntryProofs EntryCost Ledger SetProofs Conserve Fill WorldProofs WorldLedger.
+From G Require Import Arith Monad Types Inv Raw RawProofs Map MapProofs IterProofs CloneProofs Cost EntryProofs EntryCost Ledger SetProofs Conserve EntryLedger Fill WorldProofs WorldLedger.
 Local Open Scope N_scope.
 
 (* every world reachable by a history of (so far: core) operations, from the empty world *)
@@ -817,6 +817,37 @@ Lemma T_C06_keys_in_static c w ts rs w' :
   keys_in c w ts = concat (map (fun t => k_in world0 (t_op t)) ts).
 Proof. apply keys_in_static. Qed.
 
+(* entry and raw-entry handles: one step conserves the key objects - those stored, the one the
+   handle holds, those the step is given - against what it drops and hands back; so does a chain,
+   at whose end the handle's own key has been stored, dropped or handed back *)
+Lemma T_C06_entry_step_conserves c raw e st s e' r s' :
+  Inv (cR c) (cesz c) (s_rt s) -> ent_ok (s_rt s) e -> raw_wf raw (strip e) -> st_wf raw st ->
+  entry_step c raw e st s = Ok (e', r) s' ->
+  dks s' ++ kidsE (s_rt s') ++ hk (strip e') ++ step_kout st r ≡ₚ step_kin st (strip e) ++ dks s ++ kidsE (s_rt s) ++ hk (strip e).
+Proof. intros HI Hok Hwf Hst E. exact (proj2 (proj2 (proj2 (proj2 (entry_step_conserves c raw e st s e' r s' HI Hok Hwf Hst E))))). Qed.
+Lemma T_C06_entry_chain_conserves c k kid ss s outs s' :
+  Inv (cR c) (cesz c) (s_rt s) -> Forall (st_wf false) ss -> map_entry c k kid ss s = Ok outs s' ->
+  dks s' ++ kidsE (s_rt s') ++ chain_kout ss outs ≡ₚ
+  (kid :: chain_kin false (rt_abs (s_rt s)) (start_ent (rt_abs (s_rt s)) k (Some kid)) ss) ++ dks s ++ kidsE (s_rt s).
+Proof. apply map_entry_conserves. Qed.
+Lemma T_C06_raw_entry_chain_conserves c variant k ss s outs s' :
+  Inv (cR c) (cesz c) (s_rt s) -> map_raw_entry c variant k ss s = Ok outs s' ->
+  dks s' ++ kidsE (s_rt s') ++ chain_kout ss outs ≡ₚ
+  chain_kin true (rt_abs (s_rt s)) (start_ent (rt_abs (s_rt s)) k None) ss ++ dks s ++ kidsE (s_rt s).
+Proof. apply map_raw_entry_conserves. Qed.
+(* every operation of the model is covered by the conservation law (entry chains without raw-only
+   steps, size arguments that fit a usize, drains that are not forgotten) *)
+Lemma T_C06_law_covers o : ledger_op o <->
+  match o with
+  | OEntry _ _ _ ss => forallb (fun st => negb (raw_only st)) ss = true
+  | ODrain _ _ forget => forget = false
+  | OReserve _ n | OTryReserve _ n => n <= usize_max
+  | OExtend _ _ hint => hint <= usize_max
+  | OParExtend _ chunks => N.of_nat (length (concat chunks)) < usize_max
+  | _ => True
+  end.
+Proof. destruct o; cbn [ledger_op]; tauto. Qed.
+
 (* the hypothesis [lite] holds in every reachable state: it is part of the invariant *)
 Lemma T_C06_lite_reachable R Esz s : Inv R Esz (s_rt s) -> lite s.
 Proof. apply Inv_lite. Qed.
@@ -1229,7 +1260,10 @@ Qed.
    dropped: a lawful panic-free history from and to no map *)
 Definition ex_hist2 : list traced :=
   ex_hist ++ [T (OInsert 0 12 99 5) 0 0 [] []; T (ORemove 0 true 13) 0 0 [] []; T (OClone 0 1) 0 0 [] [];
-              T (OInsert 1 77 98 5) 0 0 [] []; T (OCloneFrom 0 1) 0 0 [] []; T (ODrop 0) 0 0 [] []; T (ODrop 1) 0 0 [] []].
+              T (OInsert 1 77 98 5) 0 0 [] []; T (OCloneFrom 0 1) 0 0 [] [];
+              T (OEntry 0 14 200 [SOccReplaceWith false 0; SInsertE 9; SOccRemoveEntry]) 0 0 [] [];
+              T (ORawEntry 1 0 300 [SRawInsert 201 5; SRawOccInsertKey 202]) 0 0 [] [];
+              T (ODrop 0) 0 0 [] []; T (ODrop 1) 0 0 [] []].
 Example ex_ok_run : exists rs w', ok_run ex_cfg world0 ex_hist2 rs w' /\ w_maps w' = ∅.
 Proof.
   assert (H : option_map (fun p => size (w_maps (snd p))) (run_okb ex_cfg world0 ex_hist2) = Some 0%nat) by (vm_compute; reflexivity).
